@@ -50,7 +50,7 @@ def build() -> Check:
         "payload of every SUCCEED record must be the serialisation of the very value returned; create_callback "
         "must have status-independent outcomes; error-field provenance of CallableRuntimeError is compared.",
         ["equality of values after a serializer round trip is not decided (C15 covers the codec tables)",
-         "classes that terminate the invocation (re-raised by the wrapper) are exempt from R1: user code never continues after them",
+         "R1 judges every class user code can catch, including those the wrapper re-raises (an earlier exemption for them hid two defects: see known findings)",
          "user workflow code is deterministic"],
         "one obligation per (rule, executor[, cell])",
     )
